@@ -28,7 +28,7 @@ func textLevelOf(b *recB, light bool) textLevel {
 	case b.Quick():
 		return textLevel{valids: 4, flips: 160, jsonNodes: 28, nests: []int{31, 100, 9999, 10001, 100000}, randoms: 10, bigDigits: 100000, nodeExp: "100000", directExp: "1000000"}
 	default:
-		return textLevel{valids: 12, flips: 1000, jsonNodes: 300, nests: []int{31, 100, 9999, 10001, 100000, 1000000, 4000000}, randoms: 100, bigDigits: 1000000, nodeExp: "1000000", directExp: "1000000"}
+		return textLevel{valids: 20, flips: 1000, jsonNodes: 500, nests: []int{31, 100, 9999, 10001, 100000, 1000000, 4000000}, randoms: 100, bigDigits: 1000000, nodeExp: "1000000", directExp: "1000000"}
 	}
 }
 
